@@ -37,22 +37,28 @@ Lemma inv_chan_le V g g' gh st :
   Inv V g gh st -> nodes g' = nodes g -> disks g' = disks g ->
   (forall T c, (inflight g' T c <= inflight g T c)%nat) -> Inv V g' gh st.
 Proof.
-  intros I En Ed Hle. destruct I. constructor; auto.
-  - rewrite En; auto.
-  - intros v x. rewrite En. auto.
-  - intros v d. rewrite Ed. auto.
-  - intros t v c H. destruct (I_grant0 t v c H) as (A & B & C). rewrite En. auto.
-  - intros T c. specialize (I_cnt0 T c). specialize (Hle T c).
+  intros I En Ed Hle. constructor.
+  - rewrite En. apply (I_sorted _ _ _ _ I).
+  - intros v x. rewrite En. apply (I_node _ _ _ _ I).
+  - intros v d. rewrite Ed. apply (I_disk _ _ _ _ I).
+  - intros t v c H. destruct (I_grant _ _ _ _ I t v c H) as (A & B & C). rewrite En. auto.
+  - apply (I_key _ _ _ _ I).
+  - intros T c. pose proof (I_cnt _ _ _ _ I T c). specialize (Hle T c).
     rewrite (counted_nodes g g' T c En). lia.
+  - apply (I_win _ _ _ _ I).
 Qed.
 
 Lemma inv_st_mono V g gh st st' : Inv V g gh st -> incl st st' -> Inv V g gh st'.
 Proof.
-  intros I Hs. destruct I. constructor; auto.
-  - intros v x H. destruct (I_node0 v x H) as (A & B & C). split; auto. split; auto.
+  intros I Hs. constructor.
+  - apply (I_sorted _ _ _ _ I).
+  - intros v x H. destruct (I_node _ _ _ _ I v x H) as (A & B & C). split; auto. split; auto.
     intros Hv. destruct (B Hv) as (B1 & B2 & B3 & B4). auto.
-  - intros v d H Hv. apply Hs. eauto.
-  - intros t v c H. destruct (I_grant0 t v c H) as (A & B & C). auto.
+  - intros v d H Hv. apply Hs. apply (I_disk _ _ _ _ I v d H Hv).
+  - intros t v c H. destruct (I_grant _ _ _ _ I t v c H) as (A & B & C). auto.
+  - apply (I_key _ _ _ _ I).
+  - apply (I_cnt _ _ _ _ I).
+  - apply (I_win _ _ _ _ I).
 Qed.
 
 (* ---------- the generic node step ---------- *)
@@ -119,4 +125,212 @@ Proof.
     + destruct (is_win (outs s)) eqn:W; [|contradiction]. destruct Hin as [Hin|[]]. injection Hin as <- <-.
       apply (Hwin (mkGh [] (sg ++ rv_grants n (outs s) ++ grants gh)) eq_refl eq_refl). exact Hcnt.
     + pose proof (I_win _ _ _ _ I t c Hin). unfold nvotes at 1. cbn [grants]. lia.
+Qed.
+
+(* ---------- node_ok after a step ---------- *)
+Lemma node_ok_step V st n x y :
+  node_ok V st n x -> self y = self x -> rinv y -> others y = others x ->
+  (self x = None -> role x = FOLLOWER -> role y = FOLLOWER) ->
+  node_ok V st n y.
+Proof.
+  intros (R & Hv & Hr) Es Ry Eo Hrole. split; auto. split.
+  - intros Hn. destruct (Hv Hn) as (A & B & C & D). rewrite Es, Eo. auto.
+  - intros Hn. destruct (Hr Hn) as (A & B). rewrite Es. auto.
+Qed.
+
+Lemma node_ok_voter V st n x : node_ok V st n x -> self x <> None ->
+  n < RO_BASE /\ In n V /\ In n st /\ self x = Some n /\ others x = vminus n V.
+Proof.
+  intros (R & Hv & Hr) Hs. destruct (N.lt_ge_cases n RO_BASE) as [Hn|Hn].
+  - destruct (Hv Hn) as (A & B & C & D). auto.
+  - destruct (Hr Hn) as (A & B). congruence.
+Qed.
+
+(* ---------- passive steps ---------- *)
+Lemma inv_passive V g g1 gh st n x s :
+  Inv V g gh st ->
+  nodes g1 = nodes g -> disks g1 = disks g ->
+  (forall T c, (inflight g1 T c <= inflight g T c)%nat) ->
+  aget n (nodes g) = Some x ->
+  passive x s -> rinv (nd s) -> others (nd s) = others x ->
+  Inv V (finish n s g1)
+      (mkGh ((if is_win (outs s) then [(term (nd s), n)] else []) ++ wins gh)
+            ([] ++ rv_grants n (outs s) ++ grants gh)) st.
+Proof.
+  intros I En Ed Hle Hx (Ps & Pv & Pt & Peq & Plt & Pout) Ry Eo.
+  pose proof (I_node _ _ _ _ I n x Hx) as Hok.
+  apply (inv_node_step V g g1 gh st n x s [] I En Ed Hx).
+  - apply (node_ok_step V st n x); auto. intros Hs Hr.
+    destruct (N.eq_dec (term (nd s)) (term x)) as [E|E].
+    + destruct (Peq E) as [_ [H|H]]; congruence.
+    + apply Plt. lia.
+  - exact Pt.
+  - intros E. apply (Peq E).
+  - cbn [app]. rewrite <- rv_grants_loud.
+    destruct Pout as [L|(d & Hs & L & Vd & F)]; rewrite L; cbn; [left; auto|].
+    right. exists d. destruct (node_ok_voter V st n x Hok Hs) as (Hn & _). auto.
+  - intros T c. rewrite cnt_nil. specialize (Hle T c).
+    destruct (N.eq_dec c n) as [->|Hne].
+    + rewrite counted_finish_self. unfold counted at 1. rewrite Hx.
+      destruct ((term (nd s) =? T) && negb (role (nd s) =? FOLLOWER)) eqn:Cy; [|lia].
+      apply andb_true_iff in Cy as [C1 C2]. apply N.eqb_eq in C1. apply negb_true_iff in C2.
+      apply N.eqb_neq in C2.
+      assert (E : term (nd s) = term x).
+      { destruct (N.eq_dec (term (nd s)) (term x)); auto. exfalso. apply C2. apply Plt. lia. }
+      destruct (Peq E) as [_ [Hr|Hr]]; [|congruence].
+      rewrite <- E, C1, N.eqb_refl, <- Hr. apply N.eqb_neq in C2. rewrite C2. cbn. rewrite Pv. lia.
+    + rewrite counted_finish_other; auto. rewrite (counted_nodes g g1 T c En). lia.
+  - intros gh' _ W. rewrite <- is_win_loud in W.
+    destruct Pout as [L|(d & Hs & L & Vd & F)]; rewrite L in W; discriminate.
+Qed.
+
+(* ---------- a new candidacy (ticks) ---------- *)
+Lemma inv_cand V g gh st n x s maj :
+  Inv V g gh st ->
+  aget n (nodes g) = Some x ->
+  cand x s maj -> rinv (nd s) -> others (nd s) = others x ->
+  (maj -> exists n1, majority 1 n1 = true /\ others n1 = others x) ->
+  NoDup V ->
+  Inv V (finish n s g)
+      (mkGh ((if is_win (outs s) then [(term (nd s), n)] else []) ++ wins gh)
+            ([(term (nd s), n, n)] ++ rv_grants n (outs s) ++ grants gh)) st.
+Proof.
+  intros I Hx (me & Sx & Ss & Tt & Vv & Vt & Pout) Ry Eo Hmaj ND.
+  pose proof (I_node _ _ _ _ I n x Hx) as Hok.
+  assert (Hs : self x <> None) by congruence.
+  destruct (node_ok_voter V st n x Hok Hs) as (Hn & HV & Hst & Sn & On).
+  assert (me = n) by congruence. subst me.
+  assert (Rv : rv_grants n (outs s) = []).
+  { rewrite <- rv_grants_loud. destruct Pout as [L|[L _]]; rewrite L; reflexivity. }
+  apply (inv_node_step V g g gh st n x s [(term (nd s), n, n)] I eq_refl eq_refl Hx).
+  - apply (node_ok_step V st n x); auto. intros; congruence.
+  - lia.
+  - intros E. lia.
+  - right. exists n. rewrite Rv. cbn. repeat split; auto. left; lia.
+  - intros T c. rewrite cnt_cons, cnt_nil.
+    destruct (N.eq_dec c n) as [->|Hne].
+    + rewrite counted_finish_self. unfold gmatch. cbn [fst snd]. rewrite N.eqb_refl, andb_true_r.
+      destruct (term (nd s) =? T); cbn; [|lia].
+      destruct (negb _); rewrite ?Vt; lia.
+    + rewrite counted_finish_other; auto. lia.
+  - intros gh' Eg W _. rewrite <- is_win_loud in W.
+    destruct Pout as [L|[L M]]; rewrite L in W; [discriminate|].
+    destruct (Hmaj M) as (n1 & M1 & O1).
+    assert (M2 : majority 1 x = true) by (rewrite <- M1; apply majority_others; auto).
+    apply (majority_static 1 x n V ND HV On) in M2.
+    unfold nvotes. rewrite Eg, cnt_app, cnt_cons. unfold gmatch at 1. cbn [fst snd].
+    rewrite !N.eqb_refl. cbn. cbn in M2. lia.
+Qed.
+
+(* ---------- a counted vote (delivery of a ResponseVote) ---------- *)
+Lemma inv_count V g gh st a n x s rest :
+  Inv V g gh st ->
+  aget n (nodes g) = Some x ->
+  chan_get a n g = ResponseVote (term x) :: rest ->
+  count x (ResponseVote (term x)) s -> rinv (nd s) ->
+  NoDup V ->
+  Inv V (finish n s (chan_set a n rest g))
+      (mkGh ((if is_win (outs s) then [(term (nd s), n)] else []) ++ wins gh)
+            ([] ++ rv_grants n (outs s) ++ grants gh)) st.
+Proof.
+  intros I Hx Hch (_ & Rx & Ss & Tt & Vv & Vt & Eo & Pout) Ry ND.
+  pose proof (I_node _ _ _ _ I n x Hx) as Hok.
+  assert (Hs : self x <> None).
+  { pose proof Hok as (_ & Hv & Hr). intros Hs.
+    destruct (N.lt_ge_cases n RO_BASE) as [Hn|Hn].
+    - destruct (Hv Hn) as (_ & _ & C & _). congruence.
+    - destruct (Hr Hn) as [_ B]. rewrite Rx in B. discriminate. }
+  destruct (node_ok_voter V st n x Hok Hs) as (Hn & HV & Hst & Sn & On).
+  assert (Rv : rv_grants n (outs s) = []).
+  { rewrite <- rv_grants_loud. destruct Pout as [[L _]|[L _]]; rewrite L; reflexivity. }
+  assert (Hle : forall T c, (inflight (chan_set a n rest g) T c +
+                  (if N.eqb n c && N.eqb (term x) T then 1 else 0) <= inflight g T c)%nat).
+  { intros T c. pose proof (inflight_chan_set g a n rest T c) as H. rewrite Hch, cnt_cons in H.
+    cbn [is_rv] in H. destruct (n =? c); cbn [andb]; cbv iota in H |- *; [|lia].
+    destruct (term x =? T); cbv iota in H |- *; lia. }
+  apply (inv_node_step V g (chan_set a n rest g) gh st n x s [] I eq_refl eq_refl Hx).
+  - apply (node_ok_step V st n x); auto. intros; congruence.
+  - lia.
+  - intros _. left; auto.
+  - left. rewrite Rv. reflexivity.
+  - intros T c. rewrite cnt_nil. specialize (Hle T c).
+    destruct (N.eq_dec c n) as [->|Hne].
+    + rewrite N.eqb_refl in Hle. cbn [andb] in Hle.
+      rewrite counted_finish_self. unfold counted at 1. rewrite Hx, Tt, Vt, Rx.
+      change (CANDIDATE =? FOLLOWER) with false.
+      destruct (term x =? T); cbn [andb negb] in Hle |- *; cbv iota in Hle |- *; [|lia].
+      destruct (negb _); lia.
+    + rewrite counted_finish_other; auto.
+      rewrite (counted_nodes g (chan_set a n rest g) T c eq_refl).
+      destruct (n =? c) eqn:E; [apply N.eqb_eq in E; congruence|].
+      cbn [andb] in Hle. cbv iota in Hle. lia.
+  - intros gh' Eg W Hc. rewrite <- is_win_loud in W.
+    destruct Pout as [[L _]|(L & Rl & M)]; rewrite L in W; [discriminate|].
+    assert (M2 : majority (votes (nd s)) x = true) by (rewrite <- M; apply majority_others; auto).
+    apply (majority_static _ x n V ND HV On) in M2.
+    specialize (Hc (term (nd s)) n). rewrite counted_finish_self in Hc.
+    rewrite N.eqb_refl, Rl in Hc. cbn in Hc. lia.
+Qed.
+
+(* ---------- kill ---------- *)
+Lemma inv_kill V g gh st n dk :
+  Inv V g gh st ->
+  (forall v d, In (v, d) dk -> v < RO_BASE -> In v st) ->
+  Inv V (mkG (adel n (nodes g))
+             (filter (fun c => negb ((fst (fst c) =? n) || (snd (fst c) =? n))) (chan g)) dk) gh st.
+Proof.
+  intros I Hd.
+  pose proof (I_sorted _ _ _ _ I) as Hs.
+  constructor; cbn [nodes chan disks].
+  - apply ksorted_adel; auto.
+  - intros v x H. destruct (N.eq_dec v n) as [->|Hne].
+    + rewrite aget_adel_same in H; auto. discriminate.
+    + rewrite aget_adel_neq in H; auto. apply (I_node _ _ _ _ I v x H).
+  - exact Hd.
+  - intros t v c H. destruct (I_grant _ _ _ _ I t v c H) as (A & B & C). split; auto. split; auto.
+    intros x Hx. destruct (N.eq_dec v n) as [->|Hne].
+    + rewrite aget_adel_same in Hx; auto. discriminate.
+    + rewrite aget_adel_neq in Hx; auto.
+  - apply (I_key _ _ _ _ I).
+  - intros T c. pose proof (I_cnt _ _ _ _ I T c) as H.
+    match goal with |- (counted ?G _ _ + inflight ?G _ _ <= _)%nat =>
+      assert (H1 : (counted G T c <= counted g T c)%nat);
+      [|assert (H2 : (inflight G T c <= inflight g T c)%nat)] end.
+    { unfold counted. cbn [nodes]. destruct (N.eq_dec c n) as [->|Hne].
+      - rewrite aget_adel_same; auto. lia.
+      - rewrite aget_adel_neq; auto. }
+    { unfold inflight. cbn [chan]. apply sum_filter_le. }
+    lia.
+  - apply (I_win _ _ _ _ I).
+Qed.
+
+(* ---------- (re)start ---------- *)
+Lemma inv_restart V g gh st st' n y :
+  Inv V g gh st -> incl st st' ->
+  node_ok V st' n y -> role y = FOLLOWER ->
+  (forall t c, ~ In (t, n, c) (grants gh)) \/ ~ In n V ->
+  Inv V (put_node n y (g <| chan := filter (fun c => negb ((fst (fst c) =? n) || (snd (fst c) =? n))) (chan g) |>))
+      gh st'.
+Proof.
+  intros I0 Hst Hok Hr Hfresh.
+  pose proof (inv_st_mono V g gh st st' I0 Hst) as I.
+  constructor; cbn [nodes chan disks put_node set].
+  - apply ksorted_aset. apply (I_sorted _ _ _ _ I).
+  - intros v x. cbn. rewrite aget_aset. destruct (v =? n) eqn:E.
+    + apply N.eqb_eq in E; subst. intros H; injection H as <-. auto.
+    + apply (I_node _ _ _ _ I).
+  - apply (I_disk _ _ _ _ I).
+  - intros t v c H. destruct (I_grant _ _ _ _ I t v c H) as (A & B & C). split; auto. split; auto.
+    intros x. cbn. rewrite aget_aset. destruct (v =? n) eqn:E; [|apply C].
+    apply N.eqb_eq in E; subst v. exfalso. destruct Hfresh as [F|F]; [apply (F t c H) | auto].
+  - apply (I_key _ _ _ _ I).
+  - intros T c. pose proof (I_cnt _ _ _ _ I T c) as H.
+    match goal with |- (counted ?G _ _ + inflight ?G _ _ <= _)%nat =>
+      assert (H1 : (counted G T c <= counted g T c)%nat);
+      [|assert (H2 : (inflight G T c <= inflight g T c)%nat)] end.
+    { unfold counted. cbn. rewrite aget_aset. destruct (c =? n); [|lia].
+      rewrite Hr. rewrite andb_false_r. lia. }
+    { unfold inflight. cbn. apply sum_filter_le. }
+    lia.
+  - apply (I_win _ _ _ _ I).
 Qed.
